@@ -25,7 +25,9 @@ def gen_history(rng, n):
             i, j = rng.randrange(nu), rng.randrange(nu)
             if dims[i] != dims[j]: continue
             e = rng.choice([1, 1, 1, 2, 3, -1])
-            m = rng.choice([["int", "3", "1"], ["float", "5", "2"], ["int", "0", "1"], ["dec", "7", "4"]])
+            # numerically equal magnitudes of different types (5, 5.0, Decimal(5)) must not share an answer
+            m = rng.choice([["int", "3", "1"], ["float", "5", "2"], ["int", "0", "1"], ["dec", "7", "4"],
+                            ["int", "5", "1"], ["float", "5", "1"], ["dec", "5", "1"], ["int", "5", "1"], ["dec", "5", "1"], ["float", "5", "1"]])
             ops.append(["query", rng.choice(["in_unit", "in_unit", "rev", "eq", "lt", "add"]), m, i, e, j, e])
     return ops
 
